@@ -189,6 +189,13 @@ func openC08Db(w *wiring, dir string, regs []c08Reg) (*c08Db, error) {
 	if err != nil {
 		return nil, err
 	}
+	return c08AttachDb(h, regs)
+}
+
+// c08AttachDb registers the recording listeners of every style, the constraints and the tx-complete listener on an
+// open harness database (also used by the C07 harness, store_c07_hooks.go: none of them may run for a failed transaction)
+func c08AttachDb(h *harnessDb, regs []c08Reg) (*c08Db, error) {
+	w := h.w
 	c := &c08Db{h: h, evCount: map[string]int{}, caRuns: map[string]int{}, paRuns: map[string]int{}, sig: make(chan struct{}, 1)}
 	for _, def := range w.Stores {
 		gs := h.stores[def.Name]
